@@ -23,7 +23,7 @@
 //     the input only), which is finer than the "other" class of the design;
 //   - quick tier enumerates every 23rd (requests) / 11th (responses) grammar message of the full
 //     product in mixed-radix order instead of "about 600 streams"; thorough is the full product;
-//   - thorough adds all triple cuts for streams <= 64 B and double cuts for the mutants.
+//   - thorough adds all triple cuts for streams <= 56 B and double cuts for the mutants.
 package main
 
 import (
@@ -42,7 +42,7 @@ var policies = []track.Policy{track.Exact, track.Pooled, track.Stale}
 
 type level struct {
 	double    bool // all double cuts (<=160 B) / structural double cuts
-	triple    bool // all triple cuts for streams <= 64 B
+	triple    bool // all triple cuts for streams <= 56 B
 	policies3 bool // single cuts and byte-at-a-time under all three capacity policies
 	trackCuts bool // single cuts under the pooled policy use verif/track (else the lite allocator)
 }
@@ -158,7 +158,7 @@ func (e *evaluator) stream(m *httpgen.Msg, client bool, lv level) {
 				e.p.Count("streams_with_structural_double_cuts", 1)
 			}
 		}
-		if lv.triple && n <= 64 {
+		if lv.triple && n <= 56 {
 			httpgen.TripleCutsAll(n, func(cuts []int) {
 				c.Cuts = cuts
 				e.compare(refs[track.Pooled], c, "triple-cut", m.Desc)
@@ -319,7 +319,7 @@ func replay(_ string, raw json.RawMessage) string {
 func main() {
 	vkit.Main(&vkit.Spec{
 		Property: "C06", Level: "model_checking",
-		Rule: "one case = (byte stream, segmentation, processor, allocator capacity policy) executed on the real nbhttp.Parser and compared with the one-piece feed of the same stream; streams: the RFC 7230 grammar of DESIGN 4/C06 in both directions (quick: every 23rd request / 11th response of the full product in mixed-radix order; thorough: all 23712 + 11856), all ordered pairs of 8 base requests / 6 base responses as pipelines, 8 messages with 1-1.5 KiB bodies / header values (beyond the pooled buffer capacity), and every distinct single-byte mutant (16 replacement bytes, delete, duplicate, at every position) of those 14 base messages; segmentations: one piece, every single cut, every double cut (streams <= 160 B; structural cut set beyond), byte-at-a-time, pieces of 2/3/7 bytes (thorough: every triple cut for streams <= 64 B, double cuts for mutants); a case is non-trivial when some feed ended with a non-empty carry-over buffer (the cut fell inside a token/body, measured through the hook accessor)",
+		Rule: "one case = (byte stream, segmentation, processor, allocator capacity policy) executed on the real nbhttp.Parser and compared with the one-piece feed of the same stream; streams: the RFC 7230 grammar of DESIGN 4/C06 in both directions (quick: every 23rd request / 11th response of the full product in mixed-radix order; thorough: all 23712 + 11856), all ordered pairs of 8 base requests / 6 base responses as pipelines, 8 messages with 1-1.5 KiB bodies / header values (beyond the pooled buffer capacity), and every distinct single-byte mutant (16 replacement bytes, delete, duplicate, at every position) of those 14 base messages; segmentations: one piece, every single cut, every double cut (streams <= 160 B; structural cut set beyond), byte-at-a-time, pieces of 2/3/7 bytes (thorough: every triple cut for streams <= 56 B, double cuts for mutants); a case is non-trivial when some feed ended with a non-empty carry-over buffer (the cut fell inside a token/body, measured through the hook accessor)",
 		Assumptions: []string{
 			"events compared: every Processor callback with its arguments (recording processor) or the request/response dump made by the handler plus the first line of every write and Close calls on the connection (real processors); verdict compared: nbhttp sentinel identity, else the error text",
 			"after Parse returns an error the harness calls CloseAndClean, as Engine.DataHandler's close does, and stops feeding; events before the error must agree too",
